@@ -175,6 +175,9 @@ pub fn run(cfg: &Cfg) -> Report {
     for k in 0..n {
         let idx = k * cfg.shards as u64 + cfg.shard as u64;
         one_case(kinds[(idx % 3) as usize], cfg.seed.wrapping_mul(1_299_709).wrapping_add(idx), &mut rep);
+        if rep.enough() {
+            break;
+        }
     }
     rep
 }
